@@ -220,7 +220,7 @@ class PseudoOperand(Operand):
                 size=self.value.byte_len(),
                 max_size=self.value.byte_len()
             ) if self.value.is_multi_byte() else CodePackage(
-                additional=NumericValue(self.value.int, size_hint=2),
+                additional=self.value,
                 size=1,
                 max_size=1
             )
@@ -231,7 +231,7 @@ class PseudoOperand(Operand):
                 size=self.value.byte_len(),
                 max_size=self.value.byte_len()
             ) if self.value.is_multi_word() else CodePackage(
-                additional=NumericValue(self.value.int, size_hint=4),
+                additional=self.value,
                 size=2,
                 max_size=2
             )
